@@ -275,8 +275,8 @@ Print Assumptions html_template_rawtext_converse.
    invariant over every loop whose first test is l.skipTemplate(): Model.with_tmpl / Safety.with_tmpl_inv.)
    The "if" half (a region that starts where the lexer looks is never split and sets the flag) is proved per context:
    html_template_atomic (text), html_template_atomic_attr_partial / _attr_value_partial (attributes),
-   html_template_atomic_rawtext_partial (raw text); for comments, doctype, CDATA, bogus comments, end tags and svg /
-   math / xml it is covered by the witnesses below and the Go oracle.  Positions at which the lexer does not look:
+   html_template_atomic_rawtext_partial (raw text), html_template_atomic_comment (comments); for doctype, CDATA, bogus
+   comments, end tags and svg / math / xml it is covered by the witnesses and the Go oracle.  Positions at which the lexer does not look:
    plaintext content (finding c09-template:plaintext, next theorem); the letters it jumps over after '<' or "</" in
    raw text, script "<!--" sections and svg / math content; the bytes of "<!--", "<![CDATA[", "<?" and of the
    terminators "-->", "]]>", "?>" it moves over at once; whitespace, '=' and the closers '>' "/>" inside a tag;
@@ -286,6 +286,20 @@ Theorem html_template_flag_sound :
     exists p q, lpos (lz l) <= p /\ q <= lpos (lz l') /\ is_region c d p q.
 Proof. intros c d l ty tk l' Hc Htb. exact (html_template_flag_sound_proof c d Hc Htb l ty tk l'). Qed.
 Print Assumptions html_template_flag_sound.
+
+(* C09 — templates, comments (the "if" half in a context that was a finding): "<!--" at the cursor (no delimiter starts
+   at the '<'), then bytes [a+4,p) at which neither a delimiter nor "-->" / "--!>" starts, then a region [p,q): the ONE
+   Comment token starts at the cursor, contains the whole region and reports HasTemplate() = true — also when the
+   region contains "-->".  (Proved with a generic rule for every scanning loop that tests l.skipTemplate() first,
+   TemplateAll.scan_reach_done; doctype, CDATA, bogus comments and end tags have the same loop shape.) *)
+Theorem html_template_atomic_comment :
+  forall c d l p q, cfg_ok c -> tb c <> [] -> html_inv d l -> intag l = false -> rawtag l = 0 ->
+    let a := lpos (lz l) in
+    prefixb (tb c) (skipz a d) = false -> prefixb [60; 33; 45; 45] (skipz a d) = true -> a + 4 <= p ->
+    (forall i, a + 4 <= i < p -> comment_plain c d i) -> is_region c d p q ->
+    exists v l', next c l = Ok (CommentT, Some v, l') /\ lhas l' = true /\ so v = a /\ q <= so v + sn v.
+Proof. exact html_template_comment_proof. Qed.
+Print Assumptions html_template_atomic_comment.
 
 (* C09 refuted — plaintext is the one context in which the lexer does not look for delimiters: <plaintext>a{{x}}b
    gives the Text token "a{{x}}b" with HasTemplate() = false although it contains the region {{x}} (the region is
